@@ -732,8 +732,13 @@ func runExit(c *exitCase, unrestrictedTable bool) *exitObs {
 // ---------------------------------------------------------------- (iv) streams and arguments
 
 func ioArgs(shape string) []string {
-	if shape == "flag" {
+	switch shape {
+	case "flag":
 		return []string{"prog", "-name", "optval", "rest"}
+	case "bare":
+		return []string{"prog"}
+	case "empty":
+		return []string{} // given by the embedder, and empty (not nil)
 	}
 	return []string{"prog", "rest"}
 }
